@@ -902,7 +902,17 @@ def _r5_example(ctx, pkg, table, allm):
     for c in sorted({x.split("/")[-1] for x in cases}):
         ctx.check(c in allm, "R5", f"example case suffix {c}", (EXAMPLE, eh.lineno), f"`{c}` is a method of init.py's table")
     ctx.floor("R5", "example cases", len(cases), 20)
-    opts = _fstr_option_locals(eh)
+    # by role: the locals whose reconstructed value (sa.valueflow) is what the composed command line carries after `--solver=`,
+    # `--device=`, `--method=` -- however that line is put together; an expression interpolated directly in an f-string is taken as it is
+    from ..valueflow import simp as _simp
+    efl = _example_flow(pkg)
+    wv = _writer_values(efl)
+    opts = dict(_fstr_option_locals(eh))
+    for k in ("solver", "device", "method"):
+        if k in wv:
+            nm = next((nm for nm, lst in efl.assigns.items() if any(_simp(a_[0]) == wv[k] for a_ in lst)), None)
+            if nm is not None:
+                opts[k] = ast.Name(id=nm, ctx=ast.Load())
     if not all(k in opts for k in ("solver", "device", "method")):
         ctx.unrec("R5", "example solver/device derivation", (EXAMPLE, eh.lineno), "the --solver= / --device= / --method= pieces of the composed command line were not found")
         return
@@ -1000,6 +1010,10 @@ MUTANTS = [
     {"name": "rate-modifier-loop-lossy-split", "file": INIT, "old": "        rate_modifier = self.option(\"rate-modifier\")\n        rate_modifier = [rm.strip() for l in rate_modifier for rm in l.split(\",\")]\n        rate_modifier = [rm.split(\":\", 1) for rm in rate_modifier]\n        rate_modifier = {rm[0].strip(): rm[1].strip() for rm in rate_modifier}\n", "new": "        rate_modifier = {}\n        for text in self.option(\"rate-modifier\"):\n            for piece in text.split(\",\"):\n                pair = piece.strip().split(\":\")\n                rate_modifier[pair[0].strip()] = pair[1].strip()\n", "rules": ["R6"]},
     {"name": "shielding-format-separator", "file": EXAMPLE, "old": 'shieldingstr = ",".join(f"{key}: {val}" for key, val in shielding.items())', "new": 'shieldingstr = ",".join("{}={}".format(key, val) for key, val in shielding.items())', "rules": ["R4"]},
     {"name": "network-not-passed-cooling", "file": RENDER, "old": "            cooling=cooling,\n", "new": "            cooling=heating,\n", "rules": ["R8"]},
+    # hardening round 5
+    {"name": "example-device-from-substring-sparse", "file": EXAMPLE, "old": '"gpu" if "cusparse" in case', "new": '"gpu" if "sparse" in case', "rules": ["R5"]},
+    {"name": "example-case-table-unknown-method", "edits": [{"file": EXAMPLE, "old": '    def __init__(self):\n        super(ExampleCommand, self).__init__()\n', "new": '    _ALL = ("dense", "sparse", "cusparse", "rosenbrock4")\n    _CASES = (\n        ("empty", _ALL),\n        ("minimal", _ALL),\n        ("primordial", _ALL),\n        ("deuterium", _ALL),\n        ("cloud", ("dense", "sparse", "rosenbrock4")),\n        ("ism", ("dense", "sparse", "cusparse", "bdf")),\n    )\n\n    def __init__(self):\n        super(ExampleCommand, self).__init__()\n'}, {"file": EXAMPLE, "old": '        networklist = [\n            "empty/dense",\n            "empty/sparse",\n            "empty/cusparse",\n            "empty/rosenbrock4",\n            "minimal/dense",\n            "minimal/sparse",\n            "minimal/cusparse",\n            "minimal/rosenbrock4",\n            "primordial/dense",\n            "primordial/sparse",\n            "primordial/cusparse",\n            "primordial/rosenbrock4",\n            "deuterium/dense",\n            "deuterium/sparse",\n            "deuterium/cusparse",\n            "deuterium/rosenbrock4",\n            "cloud/dense",\n            "cloud/sparse",\n            "cloud/rosenbrock4",\n            "ism/dense",\n            "ism/sparse",\n            "ism/cusparse",\n        ]\n', "new": '        networklist = [\n            "/".join((ex_, how_))\n            for ex_, hows_ in self._CASES\n            for how_ in hows_\n        ]\n'}], "rules": ["R5"]},
+    {"name": "writer-update-forgets-method", "file": CONF, "old": '        odesolver = content["ODEsolver"]\n        odesolver["solver"] = self._solver\n        odesolver["device"] = self._device\n        odesolver["method"] = self._method\n', "new": '        content["ODEsolver"].update({"solver": self._solver, "device": self._device})\n', "rules": ["R1"]},
 ]
 BENIGN = [
     # hardening round 4
@@ -1010,4 +1024,13 @@ BENIGN = [
     {"name": "shielding-str-format", "file": EXAMPLE, "old": 'shieldingstr = ",".join(f"{key}: {val}" for key, val in shielding.items())', "new": 'shieldingstr = ",".join("{}: {}".format(key, val) for key, val in shielding.items())'},
     {"name": "option-by-concatenation", "file": EXAMPLE, "old": "f\"--shielding='{shieldingstr}'\",", "new": "\"--shielding=\" + \"'\" + format(shieldingstr) + \"'\","},
     {"name": "kwargs-reordered", "file": INIT, "old": "            solver=solver,\n            device=device,\n            method=method,\n        )", "new": "            method=method,\n            device=device,\n            solver=solver,\n        )"},
+    # hardening round 5
+    {"name": "example-cases-from-class-table", "edits": [{"file": EXAMPLE, "old": '    def __init__(self):\n        super(ExampleCommand, self).__init__()\n', "new": '    _ALL = ("dense", "sparse", "cusparse", "rosenbrock4")\n    _CASES = (\n        ("empty", _ALL),\n        ("minimal", _ALL),\n        ("primordial", _ALL),\n        ("deuterium", _ALL),\n        ("cloud", ("dense", "sparse", "rosenbrock4")),\n        ("ism", ("dense", "sparse", "cusparse")),\n    )\n\n    def __init__(self):\n        super(ExampleCommand, self).__init__()\n'}, {"file": EXAMPLE, "old": '        networklist = [\n            "empty/dense",\n            "empty/sparse",\n            "empty/cusparse",\n            "empty/rosenbrock4",\n            "minimal/dense",\n            "minimal/sparse",\n            "minimal/cusparse",\n            "minimal/rosenbrock4",\n            "primordial/dense",\n            "primordial/sparse",\n            "primordial/cusparse",\n            "primordial/rosenbrock4",\n            "deuterium/dense",\n            "deuterium/sparse",\n            "deuterium/cusparse",\n            "deuterium/rosenbrock4",\n            "cloud/dense",\n            "cloud/sparse",\n            "cloud/rosenbrock4",\n            "ism/dense",\n            "ism/sparse",\n            "ism/cusparse",\n        ]\n', "new": '        networklist = [\n            "/".join((ex_, how_))\n            for ex_, hows_ in self._CASES\n            for how_ in hows_\n        ]\n'}]},
+    {"name": "writer-section-update", "file": CONF, "old": '        odesolver = content["ODEsolver"]\n        odesolver["solver"] = self._solver\n        odesolver["device"] = self._device\n        odesolver["method"] = self._method\n', "new": '        content["ODEsolver"].update({"solver": self._solver, "device": self._device, "method": self._method})\n'},
+    {"name": "writer-rate-modifier-dict-zip", "file": CONF, "old": '        chemistry["rate_modifier"] = {\n            str(key): value for key, value in self._ratemodifier.items()\n        }\n', "new": '        chemistry["rate_modifier"] = dict(zip(map(str, self._ratemodifier.keys()), self._ratemodifier.values()))\n'},
+    {"name": "writer-symbol-lookup-alias", "edits": [
+        {"file": CONF, "old": '        chemistry["symbol"] = {\n', "new": '        lookup = self._species_kwargs.get\n        chemistry["symbol"] = {\n'},
+        {"file": CONF, "old": 'self._species_kwargs.get("grain_symbol", "GRAIN")', "new": 'lookup("grain_symbol", "GRAIN")'},
+        {"file": CONF, "old": 'self._species_kwargs.get("surface_prefix", "#")', "new": 'lookup("surface_prefix", "#")'},
+        {"file": CONF, "old": 'self._species_kwargs.get("bulk_prefix", "@")', "new": 'lookup("bulk_prefix", "@")'}]},
 ]
